@@ -16,6 +16,10 @@ impl cmp::PartialOrd for Factors {
     }
 }
 
+/// How many distinct sub-dimensionalities a search looks at before it
+/// stops descending into new ones.
+const MAX_EXPLORED: usize = 10_000;
+
 pub fn factorize(
     value: &Number,
     quantities: &BTreeMap<Dimensionality, Rc<String>>,
@@ -24,6 +28,12 @@ pub fn factorize(
     // sub-dimensionalities are reached along very many paths, so remember
     // them: without this, `factorize power` takes longer than anyone waits.
     let mut memo = BTreeMap::new();
+    // Only the dimensionality matters; don't drag a large numerator and
+    // denominator through every division.
+    let value = &Number {
+        value: Numeric::one(),
+        unit: value.unit.clone(),
+    };
     factorize_memo(value, quantities, &mut memo)
         .into_iter()
         .collect()
@@ -39,6 +49,13 @@ fn factorize_memo(
             .iter()
             .map(|(score, names)| Factors(*score, names.clone()))
             .collect();
+    }
+    // The number of sub-dimensionalities grows very quickly with the
+    // exponents (`factorize m^12 kg^3 s^-7 A^2` would visit millions), so
+    // stop looking at new ones at some point. Every named quantity needs
+    // fewer than 2000.
+    if memo.len() >= MAX_EXPLORED {
+        return vec![];
     }
     let result = factorize_inner(value, quantities, memo).into_vec();
     memo.insert(
